@@ -122,7 +122,7 @@ _PATH_PART = re.compile(
         "|".join([
             r"\.(?P<attr_name>[\w_]+)",
             # future improvement: support escape sequences.
-            r"\[(?P<key>\d+|'[^']+'|\"[^\"]+\")\]",
+            r"\[(?P<key>\d+|'[^']*'|\"[^\"]*\")\]",
         ])
     )
 )
@@ -154,7 +154,7 @@ def parse_path(path: str) -> daglish.Path:
     match_dict = match.groupdict()
     if match_dict["attr_name"]:
       result.append(daglish.Attr(match_dict["attr_name"]))
-    elif match_dict["key"]:
+    elif match_dict["key"] is not None:
       result.append(daglish.Key(ast.literal_eval(match_dict["key"])))
     else:
       raise AssertionError(f"Unexpected regex match {match_dict}")
